@@ -1,5 +1,5 @@
 // Package fix gives access to the static test PKI (generated once by cmd/mkpki).
-// All certificates are judged at the fixed simulated date vs.Epoch (2030-01-01).
+// All certificates are judged at the date the configurations report (props.ConfigEpoch, 2030-01-01).
 package fix
 
 import (
